@@ -1,7 +1,15 @@
 """C19 - DjangoCache honours the Django cache-backend contract."""
 
 from .. import common, gen, probe
-from ..observe import same
+from ..observe import same as _same
+
+
+def same(got, exp):
+    """Type-exact equality; an expiry instant (float) may differ by the few clock ticks of the call itself."""
+    if isinstance(got, tuple) and isinstance(exp, tuple) and len(got) == len(exp) and len(got) in (2, 3) \
+            and any(isinstance(x, float) for x in exp[1:]):
+        return all((abs(g - e) < 1e-3 if isinstance(e, float) and isinstance(g, float) else _same(g, e)) for g, e in zip(got, exp))
+    return _same(got, exp)
 
 PROP = 'C19'
 LEVEL = 'exploration'
@@ -14,7 +22,7 @@ RULE = ('histories of 100-600 DjangoCache calls (add, get, set, touch, delete, i
         'distinct_nontrivial = distinct (operation, timeout class, key state, outcome, backend parameters) cells')
 DISTINCT = ('cells',)
 REQUIRED = ('calls_judged', 'histories', 'value_errors_matched', 'expired_lookups', 'default_timeout_applied',
-            'version_moves', 'callable_defaults', 'forever_items_after_long_jump')
+            'version_moves', 'callable_defaults', 'forever_items_after_long_jump', 'lookups_with_expire_time_or_tag')
 ASSUMPTIONS = ('Django itself casts the TIMEOUT parameter to int (BaseCache.__init__), so a short integer TIMEOUT is used',
                'return values the contract leaves open (set, clear) are not compared',
                'DjangoCache(directory, params) is instantiated directly (needs no configured Django settings)')
@@ -59,30 +67,39 @@ class RefDjango:
             return None
         return it
 
-    def put(self, fk, value, timeout):
+    def put(self, fk, value, timeout, tag=None):
         t = self.ttl(timeout)
-        self.d[fk] = (value, None if t is None else self.now + t)
+        self.d[fk] = (value, None if t is None else self.now + t, tag)
 
-    def add(self, key, value, timeout='omitted', version=None):
+    @staticmethod
+    def shaped(it, default, expire_time, tag):
+        """What get / pop hand back when the expiry instant and / or the tag are asked for as well."""
+        out = (default if it is None else it[0],)
+        if expire_time:
+            out += (None if it is None else it[1],)
+        if tag:
+            out += (None if it is None else it[2],)
+        return out if len(out) > 1 else out[0]
+
+    def add(self, key, value, timeout='omitted', version=None, tag=None):
         fk = self.fk(key, version)
         if self.live(fk) is not None:
             return False
-        self.put(fk, value, timeout)
+        self.put(fk, value, timeout, tag)
         return True
 
-    def get(self, key, default=None, version=None):
-        it = self.live(self.fk(key, version))
-        return default if it is None else it[0]
+    def get(self, key, default=None, version=None, expire_time=False, tag=False):
+        return self.shaped(self.live(self.fk(key, version)), default, expire_time, tag)
 
-    def set(self, key, value, timeout='omitted', version=None):
-        self.put(self.fk(key, version), value, timeout)
+    def set(self, key, value, timeout='omitted', version=None, tag=None):
+        self.put(self.fk(key, version), value, timeout, tag)
 
     def touch(self, key, timeout='omitted', version=None):
         fk = self.fk(key, version)
         it = self.live(fk)
         if it is None:
             return False
-        self.put(fk, it[0], timeout)
+        self.put(fk, it[0], timeout, it[2])           # the tag stays
         return True
 
     def delete(self, key, version=None):
@@ -98,7 +115,7 @@ class RefDjango:
         it = self.live(fk)
         if it is None:
             return ValueError
-        self.d[fk] = (it[0] + delta, it[1])
+        self.d[fk] = (it[0] + delta, it[1], it[2])
         return it[0] + delta
 
     def decr(self, key, delta=1, version=None):
@@ -145,13 +162,12 @@ class RefDjango:
     def decr_version(self, key, delta=1, version=None):
         return self.incr_version(key, -delta, version)
 
-    def pop(self, key, default=None, version=None):
+    def pop(self, key, default=None, version=None, expire_time=False, tag=False):
         fk = self.fk(key, version)
         it = self.live(fk)
-        if it is None:
-            return default
-        del self.d[fk]
-        return it[0]
+        if it is not None:
+            del self.d[fk]
+        return self.shaped(it, default, expire_time, tag)
 
     def clear(self):
         self.d.clear()
@@ -179,7 +195,7 @@ def history(dc, sc, res, rng, params, label):
         for step in range(rng.randrange(100, 400)):
             # keep expiry instants away from the clock reads of the next call
             now = clock.now_peek()
-            near = [e for _, e in ref.d.values() if e is not None and now - 80 * TICK <= e <= now + 200 * TICK]
+            near = [e for _, e, _tag in ref.d.values() if e is not None and now - 80 * TICK <= e <= now + 200 * TICK]
             if near:
                 clock.advance(max(near) - now + 300 * TICK)
             if rng.random() < 0.12:
@@ -201,11 +217,17 @@ def history(dc, sc, res, rng, params, label):
             if state == 'expired':
                 res.count('expired_lookups')
             if op == 'add':
-                got, exp = call(lambda: dj.add(k, val, **tmo_kw(t), **vkw)), ref.add(k, val, t, ver)
+                tg = gen.pick(rng, [None, None, 'blue', 0])
+                tkw = {} if tg is None else {'tag': tg}
+                got, exp = call(lambda: dj.add(k, val, **tmo_kw(t), **tkw, **vkw)), ref.add(k, val, t, ver, tg)
             elif op == 'get':
-                got, exp = call(lambda: dj.get(k, 'DEF', **vkw)), ref.get(k, 'DEF', ver)
+                flags = {f: True for f in ('expire_time', 'tag') if rng.random() < 0.25}
+                got, exp = call(lambda: dj.get(k, 'DEF', **flags, **vkw)), ref.get(k, 'DEF', ver, **flags)
+                res.count('lookups_with_expire_time_or_tag', 1 if flags else 0)
             elif op == 'set':
-                got, exp = drop(call(lambda: dj.set(k, val, **tmo_kw(t), **vkw))), ('skip', ref.set(k, val, t, ver))
+                tg = gen.pick(rng, [None, None, 'blue', 't2', 0])
+                tkw = {} if tg is None else {'tag': tg}
+                got, exp = drop(call(lambda: dj.set(k, val, **tmo_kw(t), **tkw, **vkw))), ('skip', ref.set(k, val, t, ver, tg))
             elif op == 'touch':
                 got, exp = call(lambda: dj.touch(k, **tmo_kw(t), **vkw)), ref.touch(k, t, ver)
             elif op == 'delete':
@@ -241,7 +263,9 @@ def history(dc, sc, res, rng, params, label):
                 if exp is not ValueError:
                     res.count('version_moves')
             elif op == 'pop':
-                got, exp = call(lambda: dj.pop(k, 'DEF', **vkw)), ref.pop(k, 'DEF', ver)
+                flags = {f: True for f in ('expire_time', 'tag') if rng.random() < 0.3}
+                got, exp = call(lambda: dj.pop(k, 'DEF', **flags, **vkw)), ref.pop(k, 'DEF', ver, **flags)
+                res.count('lookups_with_expire_time_or_tag', 1 if flags else 0)
             else:
                 if rng.random() < 0.8:
                     continue
@@ -269,7 +293,7 @@ def history(dc, sc, res, rng, params, label):
         # a long jump: items without expiry survive, everything else is gone
         clock.advance(2e9)
         ref.now = clock.now_peek()
-        for fk_, (v, e) in list(ref.d.items()):
+        for fk_, (v, e, _tag) in list(ref.d.items()):
             key, ver = ref.spelled[fk_]
             got = call(lambda: dj.get(key, 'DEF', version=ver))
             exp = v if e is None else 'DEF'
